@@ -6,6 +6,8 @@ import (
 	"testing"
 	"time"
 
+	abci "github.com/cometbft/cometbft/abci/types"
+
 	upgradetypes "github.com/cosmos/cosmos-sdk/x/upgrade/types"
 
 	codectypes "github.com/cosmos/cosmos-sdk/codec/types"
@@ -232,8 +234,8 @@ func (w *nsWorld) Exec(a NSAction) []NSLine {
 			up := w.update(NSAction{Op: "update", C: a.C})
 			lines = append(lines, up)
 			lh, _ := w.latestHeight(c.id)
-			pc, _ := w.b.QueryUpgradeProof(upgradetypes.UpgradedClientKey(planHeight), lh.GetRevisionHeight())
-			pcs, _ := w.b.QueryUpgradeProof(upgradetypes.UpgradedConsStateKey(planHeight), lh.GetRevisionHeight())
+			pc := w.upgradeProof(upgradetypes.UpgradedClientKey(planHeight), lh.GetRevisionHeight())
+			pcs := w.upgradeProof(upgradetypes.UpgradedConsStateKey(planHeight), lh.GetRevisionHeight())
 			msg = &clienttypes.MsgUpgradeClient{ClientId: c.id, ClientState: upgradedAny, ConsensusState: consAny,
 				ProofUpgradeClient: pc, ProofUpgradeConsensusState: pcs, Signer: w.signer()}
 		} else {
@@ -261,6 +263,28 @@ func (w *nsWorld) Exec(a NSAction) []NSLine {
 	}
 	w.t.Fatalf("unknown op %q", a.Op)
 	return nil
+}
+
+// upgradeProof queries the counterparty's upgrade store like TestChain.QueryUpgradeProof, but a missing proof (the client
+// could not be brought to the plan height, e.g. because it is frozen) yields placeholder bytes instead of a test failure:
+// the upgrade attempt is then simply rejected by the real code.
+func (w *nsWorld) upgradeProof(key []byte, height uint64) []byte {
+	if height < 2 {
+		return []byte("no-proof")
+	}
+	res, err := w.b.App.Query(w.b.GetContext().Context(), &abci.RequestQuery{Path: "store/upgrade/key", Height: int64(height - 1), Data: key, Prove: true})
+	if err != nil || res == nil {
+		return []byte("no-proof")
+	}
+	mp, err := commitmenttypes.ConvertProofs(res.ProofOps)
+	if err != nil {
+		return []byte("no-proof")
+	}
+	bz, err := w.b.App.AppCodec().Marshal(&mp)
+	if err != nil {
+		return []byte("no-proof")
+	}
+	return bz
 }
 
 func (w *nsWorld) latestHeight(id string) (clienttypes.Height, bool) {
